@@ -61,6 +61,11 @@ vector<Node> Graph::add_operator(
     }
   }
 
+  // Checks all arguments before looking into them.
+  for (const Node &arg : args) {
+    CHECK_NODE(arg);
+  }
+
   // Retrieves the device object which manages return values itself.
   Device *ret_device = op->get_device();
   if (!ret_device) {
